@@ -65,6 +65,8 @@ def _tok(ctx, spelling):
 
 
 def check(ctx, rep):
+    from . import c06, _share
+    _share.share(ctx, rep, c06, ('float-gt', 'float-eq', 'relation.', 'int-gt'), 'relational operators return -1 / 0 according to the derived comparison primitives', tolerate_missing_anchor=True)
     prec, unary, binary = vm.operator_tables(ctx)
     for path, k, _ in ctx.cf.duplicates:
         if path == vm.OPERATORS:
